@@ -57,6 +57,12 @@ func (c01) Gen(seed int64, tier string, avoid []string) *Plan {
 			cfg2.Local[i].TWCC = 0
 		}
 	}
+	if len(cfg2.Kinds) > 0 && chance(r, 300) {
+		// chains nest: a run of members (and of the spies between them) is a chain of its own
+		flat := 2*len(cfg2.Kinds) + 1
+		cfg2.NestAt = r.Intn(flat)
+		cfg2.NestLen = 1 + r.Intn(flat-cfg2.NestAt)
+	}
 	p.Cfg = mustJSON(cfg2)
 	return p
 }
